@@ -1381,6 +1381,140 @@ Section Out.
     assert (S : RSync C w k0 r0) by (constructor; try assumption; now apply fisdir_in).
     exists r0, k0. split; [exact Hcons|]. exact (tables_live_along Hm ops w k0 r0 None (RSync_JSync _ _ _ S) Hc).
   Qed.
+
+  (* ---------------------------------------------------------------- directory move-outs back to back *)
+  (* from the pending state (up to junk): a covered operation *)
+  Theorem pj_step w k r h c p o w' : mask_ok C -> PJ w k r h c p -> covered_op C w o ->
+    (forall d, In d (notified o) -> blw h d = false) -> apply_op w o = Some w' ->
+    let k1 := kernel_op k (w_fs w) o in k_queue k1 <> [] ->
+    exists r' k' evs, read_batch C (w_fs w') (r, drainq k1, []) (k_queue k1) = Done (r', k', evs) /\
+      JSync w' k' r' /\ Forall (rsafe C) evs.
+  Proof.
+    intros M PJ0 Ho Hnh Ha k1 Qne. assert (Pclean := po_clean _ _ _ _ _ _ (pj_out _ _ _ _ _ _ PJ0)).
+    destruct (cover_step_safe C Hfaults w _ _ o w' M Pclean Ho Ha) as (r2 & k2 & evs & Hrd & S2 & Hsafe).
+    destruct (pj_transfer w k r h c p o (w_fs w') r2 k2 evs PJ0 Hnh Qne Hrd (rs_queue _ _ _ _ S2)) as (kb & Hreal & Ek & HJ).
+    exists r2, kb, evs. split; [exact Hreal|]. split; [|exact Hsafe]. split; [now rewrite Ek | exact HJ].
+  Qed.
+
+  (* ... and ANOTHER directory of the tree moved out: the first candidate is forgotten (its descriptors' IN_IGNORED
+     records are queued), the second one is pending *)
+  Theorem pj_out_step w k r h c p p2 q2 w' ep : mask_ok C -> PJ w k r h c p ->
+    npath p2 -> npath q2 -> c_recursive C = true -> apply_op w (Rename p2 q2) = Some w' ->
+    flookup p2 (w_fs w) = Some ep -> f_dir ep = true -> scope C p2 -> p2 <> root -> ~ scope C q2 ->
+    (forall d, In d (notified (Rename p2 q2)) -> blw h d = false) ->
+    let k1 := kernel_op k (w_fs w) (Rename p2 q2) in k_queue k1 <> [] ->
+    exists r' k' evs, read_batch C (w_fs w') (r, drainq k1, []) (k_queue k1) = Done (r', k', evs) /\
+      PJ w' k' r' q2 (k_next_cookie k) p2 /\ Forall (rsafe C) evs.
+  Proof.
+    intros (M1 & M2 & M3) PJ0 Np Nq Hrec Ha El De Sp Hpr Sq Hnh k1 Qne.
+    assert (Pclean := po_clean _ _ _ _ _ _ (pj_out _ _ _ _ _ _ PJ0)).
+    destruct (out_pout w _ _ p2 q2 w' ep Pclean Np Nq Hrec M2 M3 Ha El De Sp Hpr Sq) as (r2 & k2 & evs & Hrd & PO2 & Hsafe).
+    destruct (pj_transfer w k r h c p (Rename p2 q2) (w_fs w') r2 k2 evs PJ0 Hnh Qne Hrd (po_queue _ _ _ _ _ _ PO2))
+      as (kb & Hreal & Ek & HJ).
+    exists r2, kb, evs. split; [exact Hreal|]. split; [|exact Hsafe].
+    assert (Ec : k_next_cookie (kset_queue (snd (forget_tree (wfp r) p (rclr r) (kset_queue k []))) []) = k_next_cookie k).
+    { destruct (forget_tree_fold p (wfp r) (rclr r)) as (wds & rC & Hfold & _). rewrite Hfold. cbn [snd kset_queue k_next_cookie].
+      destruct (fold_krm wds (kset_queue k [])) as (_ & _ & FD & _). now rewrite FD. }
+    rewrite Ec in PO2. split; [now rewrite Ek | exact HJ].
+  Qed.
+
+  (* the invariant and the histories: a directory move-out may follow a directory move-out *)
+  Definition GS2 (w : world) (k : kst) (r : rstate) (hot : option bytes) : Prop :=
+    match hot with
+    | None => JSync w k r
+    | Some h => exists c p, PJ w k r h c p
+    end.
+
+  Definition step_ok2 (w : world) (hot : option bytes) (o : op) : Prop :=
+    match hot with
+    | None => covered_x w o
+    | Some h => covered_x w o /\ watched_parent w o /\ (forall d, In d (notified o) -> blw h d = false)
+    end.
+
+  Fixpoint ops_x2 (w : world) (hot : option bytes) (ops : list op) : Prop :=
+    match ops with
+    | [] => True
+    | o :: ops' =>
+      match apply_op w o with
+      | None => ops_x2 w hot ops'
+      | Some w' => step_ok2 w hot o /\ ops_x2 w' (is_dir_out w o) ops'
+      end
+    end.
+
+  Lemma GS_GS2 w k r hot : GS w k r hot -> GS2 w k r hot.
+  Proof. destruct hot as [h|]; cbn [GS GS2]; [|auto]. intros (c & p & PO). exists c, p. now apply POut_PJ. Qed.
+
+  Lemma cx_out_is w p q ep : npath p -> npath q -> c_recursive C = true -> flookup p (w_fs w) = Some ep -> f_dir ep = true ->
+    scope C p -> p <> root -> ~ scope C q -> is_dir_out w (Rename p q) = Some q.
+  Proof.
+    intros Np Nq Hrec El De Sp Hpr Sq. cbn [is_dir_out]. unfold fisdir. rewrite El, De, Hrec. rewrite (proj2 (scopeb_spec C p) Sp).
+    assert (E1 : beqb p root = false) by now apply beqb_neq. assert (E2 : scopeb C q = false) by now apply scopeb_false.
+    now rewrite E1, E2.
+  Qed.
+
+  Theorem gs2_step w k r hot o w' : c_mask C = WATCHDOG_ALL -> GS2 w k r hot -> step_ok2 w hot o -> apply_op w o = Some w' ->
+    let k1 := kernel_op k (w_fs w) o in
+    exists r' k' evs, read_batch C (w_fs w') (r, drainq k1, []) (k_queue k1) = Done (r', k', evs) /\
+      GS2 w' k' r' (is_dir_out w o) /\ Forall (rsafe C) evs.
+  Proof.
+    intros Hm G Hs Ea k1.
+    assert (M : mask_ok C) by (unfold mask_ok; rewrite Hm; repeat split; vm_compute; discriminate).
+    destruct hot as [h|]; cbn [GS2 step_ok2] in *.
+    - destruct G as (c & p & PJ0). destruct Hs as (Hx & Hwp & Hnh).
+      assert (PO := pj_out _ _ _ _ _ _ PJ0).
+      assert (Qne : k_queue k1 <> []).
+      { apply (record_produced w k r o Hm (rs_wf _ _ _ _ (po_clean _ _ _ _ _ _ PO))); [exact (po_cover _ _ _ _ _ _ PO) | exact (po_mask _ _ _ _ _ _ PO) | exact Hwp]. }
+      destruct Hx as [o Ho|p2 q2 ep Np Nq Hrec El De Sp Hpr Sq].
+      + destruct (pj_step w k r h c p o w' M PJ0 Ho Hnh Ea Qne) as (r' & k' & evs & Hrd & J' & Hsafe).
+        rewrite (covered_op_not_out w o Ho). exists r', k', evs. auto.
+      + destruct (pj_out_step w k r h c p p2 q2 w' ep M PJ0 Np Nq Hrec Ea El De Sp Hpr Sq Hnh Qne) as (r' & k' & evs & Hrd & PJ' & Hsafe).
+        rewrite (cx_out_is w p2 q2 ep Np Nq Hrec El De Sp Hpr Sq). exists r', k', evs. split; [exact Hrd|]. split; [|exact Hsafe].
+        now exists (k_next_cookie k), p2.
+    - destruct Hs as [o Ho|p q ep Np Nq Hrec El De Sp Hpr Sq].
+      + destruct (cover_step_junk w k r o w' M G Ho Ea) as (r' & k' & evs & Hrd & S' & Hsafe).
+        rewrite (covered_op_not_out w o Ho). exists r', k', evs. split; [exact Hrd|]. split; [now apply RSync_JSync | exact Hsafe].
+      + destruct M as (M1 & M2 & M3).
+        destruct (out_pout_junk w k r p q w' ep G Np Nq Hrec M2 M3 Ea El De Sp Hpr Sq) as (r' & k' & evs & Hrd & PO & Hsafe).
+        rewrite (cx_out_is w p q ep Np Nq Hrec El De Sp Hpr Sq). exists r', k', evs. split; [exact Hrd|]. split; [|exact Hsafe].
+        exists (k_next_cookie k), p. now apply POut_PJ.
+  Qed.
+
+  Theorem cover_sequential_x2 : c_mask C = WATCHDOG_ALL -> forall ops w k r hot, GS2 w k r hot -> ops_x2 w hot ops ->
+    exists w' k' r' hot', rrun C w k r ops = Some (w', k', r') /\ GS2 w' k' r' hot'.
+  Proof.
+    intros Hm. induction ops as [|o ops IH]; intros w k r hot G Hc; cbn [rrun ops_x2] in *.
+    - exists w, k, r, hot. now split.
+    - destruct (apply_op w o) as [w'|] eqn:Ea; [|now apply (IH w k r hot)].
+      destruct Hc as [Hs Hc]. destruct (gs2_step w k r hot o w' Hm G Hs Ea) as (r' & k' & evs & -> & G' & _).
+      now apply (IH w' k' r' _ G').
+  Qed.
+
+  Lemma GS2_cover w k r hot : GS2 w k r hot -> wf_fs w /\ Cover C (w_fs w) k r.
+  Proof.
+    destruct hot as [h|]; cbn [GS2].
+    - intros (c & p & [PO _]). split; [apply (rs_wf _ _ _ _ (po_clean _ _ _ _ _ _ PO))|].
+      apply (Cover_ext C (w_fs w) (w_fs w) (kset_queue k [])); [apply (po_cover _ _ _ _ _ _ PO) | auto | reflexivity].
+    - intros [S _]. split; [apply S|]. apply (Cover_ext C (w_fs w) (w_fs w) (kset_queue k [])); [apply S | auto | reflexivity].
+  Qed.
+
+  Theorem cover_from_start_x2 ops w : c_mask C = WATCHDOG_ALL -> wf_fs w -> fisdir root (w_fs w) = true -> ops_x2 w None ops ->
+    exists r0 k0 w' k' r', construct C kinit (w_fs w) = Some (r0, k0) /\ rrun C w k0 r0 ops = Some (w', k', r') /\
+      wf_fs w' /\ Cover C (w_fs w') k' r'.
+  Proof.
+    intros Hm W Hroot Hc. destruct (construct_cover C Hfaults w W Hroot) as (r0 & k0 & Hcons & I & Cv & Hq & _ & Hp0).
+    assert (S : RSync C w k0 r0) by (constructor; try assumption; now apply fisdir_in).
+    destruct (cover_sequential_x2 Hm ops w k0 r0 None (RSync_JSync _ _ _ S) Hc) as (w' & k' & r' & hot' & Hrun & G).
+    exists r0, k0, w', k', r'. split; [assumption|]. split; [assumption|]. now apply (GS2_cover _ _ _ hot').
+  Qed.
+
+  (* the histories of cover_sequential_x are histories of cover_sequential_x2 *)
+  Lemma ops_x_x2 ops : forall w hot, ops_x w hot ops -> ops_x2 w hot ops.
+  Proof.
+    induction ops as [|o ops IH]; intros w hot H; cbn [ops_x ops_x2] in *; [exact I|].
+    destruct (apply_op w o) as [w'|]; [|now apply IH]. destruct H as [Hs H]. destruct hot as [h|]; cbn [step_ok step_ok2 hot_next] in *.
+    - destruct Hs as (Ho & Hwp & Hnh). split; [split; [now apply cx_op | auto]|]. rewrite (covered_op_not_out w o Ho). now apply IH.
+    - split; [exact Hs | now apply IH].
+  Qed.
 End Out.
 
 Lemma ops_x_cons C w hot o ops w' : apply_op w o = Some w' -> step_ok C w hot o -> ops_x C w' (hot_next C w hot o) ops ->
